@@ -191,3 +191,54 @@ def update_drops(ctx):
     ctx.check(len(rt) == 1 and oks and all(ub.block_dominates(rt[0].b, b) for b in oks), ub.key, 'retain on every successful update',
               'update_msk can succeed without dropping the secrets of rights that left the universe (the retain is conditional or '
               'missing): keys refreshed afterwards keep deleted rights', 'retain dominates Ok(())', ub.where())
+
+
+@rule('C05', 'single-pass-merge', configs=('default', 'p256'))
+def single_pass_merge(ctx):
+    """The merge of a user chain with the master chain walks the master chain ONCE: the search for the user's newest secret and
+    the lock-step comparison of the older ones advance the same iterator (otherwise the second phase restarts at the head, diverges
+    at once and drops — or wrongly keeps — secrets)."""
+    F = ctx.F
+    fam = F.family('core::primitives::refresh_coordinate_keys')
+    n = 0
+    for fb in fam:
+        its = [c for c in fb.calls(r'LinkedList::<[^>]*>::iter$') if flags.PAIR_TY in c.full]
+        if not its:
+            continue
+        n += 1
+        ctx.check(len(its) == 1, 'core::primitives::refresh_coordinate_keys', 'master chain iterated once',
+                  'the master chain is iterated %d times (lines %s): the two phases of the merge do not share one position in the master '
+                  'chain' % (len(its), [c.ln for c in its]), 'one LinkedList::iter() over the master chain', its[0].where())
+        nx = [c for c in fb.calls(r'^std::iter::Iterator::next$') if flags.PAIR_TY in (c.self_ty or '')]
+        src = set()
+        for c in nx:
+            l, _d = lib.resolve_copy(fb, op_local(c.args[0])) if is_place(c.args[0]) else (None, None)
+            sl = backward_slice(fb, [c.args[0]], follow_mutarg=False)
+            src |= set(x.b for x in sl.calls if x.is_(r'LinkedList::<[^>]*>::iter$'))
+        ctx.check(len(nx) >= 2 and len(src) == 1, 'core::primitives::refresh_coordinate_keys', 'both phases advance the same iterator',
+                  'the %d next() calls over the master chain draw from %d iterators' % (len(nx), len(src)), 'same iterator', fb.where())
+    ctx.floor(n, 1, 'merge bodies')
+
+
+@rule('C05', 'refresh-always-rebuilds', configs=('default', 'p256'))
+def refresh_always_rebuilds(ctx):
+    """Any user key refreshed afterwards no longer holds removed secrets: every successful return of refresh is dominated by
+    the replacement of usk.secrets with chains rebuilt from the master key — there is no 'already up to date' shortcut."""
+    from .c02 import field_writers
+    F = ctx.F
+    rb = F.fn('core::primitives::refresh')
+    ws = [w for w in field_writers(F, 'core::UserSecretKey', 'secrets') if w[0] is rb and w[2] == 'assign']
+    oks = [(b, st) for b in sorted(rb.live_blocks()) for st in rb.stmts(b)
+           if st['rv']['k'] == 'agg' and st['rv'].get('adt') == 'std::result::Result' and st['rv']['variant'] == 'Ok' and st['lhs']['l'] == 0]
+    wblocks = []
+    for b in sorted(rb.live_blocks()):
+        for st in rb.stmts(b):
+            lp = st['lhs']['p']
+            if lp and isinstance(lp[-1], dict) and lp[-1].get('n') == 'secrets' and lp[-1].get('o') == 'core::UserSecretKey':
+                sl = backward_slice(rb, [st['rv'].get('a')] if st['rv'].get('a') else [], follow_mutarg=False)
+                if sl.has_call(r'primitives::refresh_coordinate_keys$') or lib.deep_calls(F, rb, [st['rv']['a']]):
+                    wblocks.append(b)
+    ctx.check(bool(oks) and bool(wblocks) and all(any(rb.block_dominates(w, b) for w in wblocks) for (b, _s) in oks), rb.key,
+              'Ok(()) <= usk.secrets rebuilt', 'refresh can return Ok(()) without having replaced the secrets of the user key by chains '
+              'rebuilt from the master key (an early-success path): pruned or deleted secrets survive such a refresh',
+              'every Ok(()) dominated by `usk.secrets = <rebuilt chains>`', rb.where())
